@@ -7,7 +7,7 @@ save_seeds ()
         [ -d /tmp/seed-out/$id-$i ] || continue;
         d=seeded/$ID-$i;
         mkdir -p $d;
-        cp /tmp/seed-out/$id-$i/* $d/;
+        cp -r /tmp/seed-out/$id-$i/* $d/;
         python3 - "$d" "$ID" "$3" <<'EOF'
 import json,sys,os
 d,ID,note=sys.argv[1:4]
